@@ -785,6 +785,15 @@ class SymCtx:
     def output(self, name: str, value):
         self.outputs[name] = value
 
+    def uf(self, name: str, arity: int):
+        """An uninterpreted function Int^arity -> Int ("any callback")."""
+        f = z3.Function(name, *([z3.IntSort()] * (arity + 1)))
+
+        def call(*args):
+            return SymInt(f(*[as_term(a) for a in args]))
+
+        return call
+
     def note(self, s: str):
         if s not in self.notes:
             self.notes.append(s)
